@@ -5,66 +5,11 @@ import os
 
 VERIF = os.path.dirname(os.path.dirname(os.path.abspath(__file__)))
 
-CHECKS = {
-    "C01": {
-        "text": "Theorem C01_feasible (Coq, induction over arbitrary request lists with the invariant Inv): every "
-                "reachable dispatcher schedule is feasible, and complete after num_operations accepted dispatches, "
-                "for every instance with durations >= 0, every filter configuration, every interleaving and machine "
-                "choice. The hand-written model is tied to /repo on every run by differential execution of generated "
-                "event scripts (implementation vs extracted model) and the extracted, proved-correct checker "
-                "feasibleb is applied to the implementation's own schedules after every event.",
-        "note": "Trusted: Coq kernel, extraction (ExtrOcamlBasic), driver.ml, the harness; the tie between model and "
-                "code is sampled (generated event scripts), not proved. Closed under the global context.",
-        "technique": "Coq proof (invariant by induction over requests) + differential correspondence with extracted model + extracted verified oracle",
-        "design": "DESIGN.md §5 C01",
-    },
-    "C02": {
-        "text": "Theorems C02_tracking, C02_start_forced, C02_replay, C02_reset_is_initial (Coq): in every world reachable by "
-                "ANY event script (accepted/rejected dispatches and environment steps, queries, resets, observer events) the "
-                "tracking vectors equal dstate_of I rows - a from-scratch recomputation from the schedule rows alone (largest "
-                "end per row; per-job count and largest end) -, the count equals the number of operations in the rows and "
-                "Schedule.makespan() equals the largest end time; an accepted dispatch appends to the chosen row exactly one "
-                "operation starting at max(end of job predecessor in the schedule, end of last operation of the row); the "
-                "history observer holds exactly the accepted dispatches and re-dispatching them from the initial (or reset) "
-                "state reproduces the dispatcher state. Tied to /repo by differential execution of event scripts; the "
-                "extracted from-scratch definitions (dstate_of, forced_start, sp_makespan) are applied to the implementation's "
-                "own rows after every event, and recorded histories are replayed on fresh and on reset real dispatchers.",
-        "note": "Trusted: Coq kernel, extraction (ExtrOcamlBasic), driver.ml, harness; tie sampled. All theorems closed under "
-                "the global context.",
-        "technique": "Coq proof (invariant Inv + derived-state equality, replay by induction) + differential correspondence + extracted verified oracle",
-        "design": "DESIGN.md §5 C02",
-    },
-    "C05": {
-        "text": "Theorems C05_queries, C05_queries_read_only, C05_partitions (Coq): for every instance with durations >= 0, every "
-                "filter configuration and every event script, each of the 17 modelled queries issued in the world reached "
-                "returns pure_query on dstate_of I rows (the uncached definition on a state recomputed from the schedule rows), "
-                "whatever was asked before (cache-coherence invariant over all events); queries change nothing but the cache; "
-                "scheduled/unscheduled partition all operations, ongoing/completed partition the scheduled ones, uncompleted = "
-                "unscheduled ++ ongoing. Tied to /repo by differential execution of query-heavy event scripts; the extracted "
-                "pure_query is evaluated on the implementation's own rows and compared with every answer.",
-        "note": "Trusted: Coq kernel, extraction, driver.ml, harness; tie sampled. Closed under the global context. The defect "
-                "found by this check (cache aliasing) is repaired by fix commit 26d3473; the model encodes the repaired code.",
-        "technique": "Coq proof (cache-coherence invariant by induction over events) + differential correspondence + extracted verified oracle",
-        "design": "DESIGN.md §5 C05",
-    },
-    "C15": {
-        "text": "Theorems C15_eq_iff_same_content, C15_eq_reflexive/_symmetric/_transitive, C15_*_differs_* and C15_op_eq_hash "
-                "(Coq): in the model of Operation/ScheduledOperation/Schedule/JobShopInstance.__eq__, of the ==/!= operator "
-                "protocol and of Operation.__hash__, == between any two values (foreign values and other kinds included) is "
-                "true exactly when their contents (machines in order, duration, job id/position/operation id, start, machine, "
-                "row and job shapes) are equal; hence an equivalence; every differing machine list, duration, job structure, "
-                "start time or machine assignment yields False; equal operations hash the same key. The unrepaired "
-                "`self.__slots__ == value.__slots__` is modelled beside it and refuted (C15_op_eq_unrepaired_refuted). Tied to "
-                "/repo by differential execution of ==, != and hash on generated, independently built objects (copies and "
-                "single-field mutations, triples, both argument orders); the extracted proved-correct checkers cont_eqb / "
-                "reflexiveb / symmetricb / transitiveb are applied to the implementation's own answers.",
-        "note": "Trusted: Coq kernel, extraction, driver.ml, harness; CPython's comparison protocol, list equality and int hashing "
-                "are modelled; tie sampled. Name/metadata are not content (no __eq__ reads them; stated as theorems). Closed under "
-                "the global context. Defect found (Operation.__eq__ always True) repaired by fix commit b4f9bd7.",
-        "technique": "Coq proof (boolean equality reflects Leibniz equality of content) + differential correspondence + extracted verified oracle",
-        "design": "DESIGN.md §5 C15",
-    },
-}
+CHECKS = {}
+for _f in sorted(os.listdir(os.path.join(VERIF, "tools", "checks"))):
+    if _f.endswith(".json"):
+        with open(os.path.join(VERIF, "tools", "checks", _f)) as _fh:
+            CHECKS[_f[:-5]] = json.load(_fh)
 
 NOT_YET = {}
 
